@@ -37,8 +37,15 @@ def bounded_task():
 
 def build(tier, seed):
     set_tier(tier)
-    tasks = [Task(f"{PROP}.S.sites", PROP, "file-system call sites", lambda: _replay_if_refuted(confine.obligations(PROP))),
-             Task(f"{PROP}.S.outfile", PROP, "outfile properties", lambda: confine.outfile_obligations(PROP)),
+    def _walk():
+        from contracts import pages
+        from bounded import c19
+        c = pages.get_page_tree_walk(PROP)
+        c.search_fn = c19.search
+        return c
+    _walk.__name__ = "get_page_tree_walk"
+    tasks = [a_task(PROP, _walk), Task(f"{PROP}.S.sites", PROP, "file-system call sites", lambda: _replay_if_refuted(confine.obligations(PROP))),
+             Task(f"{PROP}.S.outfile", PROP, "outfile properties", lambda: confine.outfile_obligations(PROP) + confine.glob_targets_are_owned(PROP)),
              Task(f"{PROP}.S.refusal", PROP, "refusal", lambda: confine.refusal_obligations(PROP)), bounded_task()]
     meta = {
         "trusted_base": ["the path algebra of contracts/confine.py (Under(ROOT) / Safe component) and its pathlib reading: `a / b` stays under a iff b is relative and has no '..'",
